@@ -101,7 +101,11 @@ def main(argv=None):
         ctx.extract()
         if not a.no_build:
             ctx.build(getattr(mod, 'TARGETS', None))
-        ctx.audit()
+        if os.environ.get('VERIF_MATRIX_FAST') == '1' and a.no_build:
+            # tools/matrix.py only: the theorems were built and audited by the first check run on this tree
+            ctx.notes.append('audit skipped (matrix run after a full first check)')
+        else:
+            ctx.audit()
         if tier == 'thorough' and getattr(mod, 'LEANCHECKER', True):
             ctx.leanchecker(['Cerberus.Props.' + pid])
         q, t = BUDGET.get(pid, (1000, 20000))
